@@ -292,6 +292,44 @@ def check(run):
                 except AnalysisError:
                     pass
         indexes[idxname] = ix
+    # module-level lists the builders fill by append (and sort): positional tables the lookups may index
+    mlists = {st.targets[0].id for st in mi.tree.body if isinstance(st, ast.Assign) and len(st.targets) == 1 and isinstance(st.targets[0], ast.Name)
+              and isinstance(st.value, ast.List) and not st.value.elts}
+    for builder, recs, kindname in (('_build_element_index', elements, 'Element'), ('_build_isotope_index', isotopes, 'Isotope')):
+        fnb = mi.functions[builder]
+        for n in ast.walk(fnb):
+            if isinstance(n, ast.Call) and isinstance(n.func, ast.Attribute) and n.func.attr == 'append' and isinstance(n.func.value, ast.Name) \
+                    and n.func.value.id in mlists and len(n.args) == 1 and norm(n.args[0]) == 'obj':
+                f = facts(guards_of(fnb, n) or [])
+                pool = dict(elements)
+                pool.update(isotopes)
+                if ('type(obj)', 'is', kindname) in f or ('type(obj)', '==', kindname) in f:
+                    pool = recs
+                tab = [r for r in sorted(pool.values(), key=lambda r: r.var) if not (r.get('kind') == 'Isotope' and 'element' not in r)]
+                indexes.setdefault(n.func.value.id, []).extend(tab)
+        for n in ast.walk(fnb):
+            if isinstance(n, ast.Call) and isinstance(n.func, ast.Attribute) and n.func.attr == 'sort' and isinstance(n.func.value, ast.Name) \
+                    and n.func.value.id in indexes and isinstance(indexes[n.func.value.id], list):
+                key = [k.value for k in n.keywords if k.arg == 'key']
+                rev = any(k.arg == 'reverse' and norm(k.value) == 'True' for k in n.keywords)
+                if len(key) == 1 and isinstance(key[0], ast.Lambda) and isinstance(key[0].body, ast.Attribute) and isinstance(key[0].body.value, ast.Name) \
+                        and key[0].body.value.id == key[0].args.args[0].arg and all(key[0].body.attr in r for r in indexes[n.func.value.id]):
+                    indexes[n.func.value.id].sort(key=lambda r, a=key[0].body.attr: r[a], reverse=rev)
+                else:
+                    del indexes[n.func.value.id]      # order unknown: lookups through it are not interpreted
+    # the two registries are distinct objects: one dict under two names merges them (shared keys resolve to whichever was stored last,
+    # and an identifier of the other registry is found instead of raising)
+    run.subject('C19-R3')
+    shared = [st for st in mi.tree.body if isinstance(st, ast.Assign) and {'_element_index', '_isotope_index'} <= {norm(t) for t in st.targets}]
+    shared += [st for st in mi.tree.body if isinstance(st, ast.Assign) and len(st.targets) == 1 and norm(st.targets[0]) in ('_element_index', '_isotope_index')
+               and norm(st.value) in ('_element_index', '_isotope_index')]
+    if shared:
+        both = sorted(set(indexes['_element_index']) & set(indexes['_isotope_index']))
+        run.fail('C19-R3', K + 'indices-aliased', PYX, shared[0].lineno,
+                 "_element_index and _isotope_index are one dict (%s): identifiers of one registry are found in the other%s"
+                 % (norm(shared[0])[:50], "; the shared key(s) %s resolve to whichever object was stored last" % both[:3] if both else ''))
+    else:
+        run.ok('C19-R3', 'element and isotope indices are separate objects', 'two module-level dict displays', sample=False)
     for fname, idxname, recs in (('lookup_element', '_element_index', elements), ('lookup_isotope', '_isotope_index', isotopes)):
         fn = mi.functions.get(fname)
         if fn is None:
@@ -442,6 +480,9 @@ def _lookup_eval(fn, args, indexes, mi):
     class _KeyErr(Exception):
         pass
 
+    class _IdxErr(Exception):
+        pass
+
     def ev(e):
         if isinstance(e, ast.Constant):
             return e.value
@@ -460,9 +501,26 @@ def _lookup_eval(fn, args, indexes, mi):
             return ev(e.left) + ev(e.right)
         if isinstance(e, ast.Subscript) and isinstance(e.value, ast.Name) and e.value.id in indexes:
             k = ev(e.slice)
-            if k in indexes[e.value.id]:
-                return indexes[e.value.id][k]
+            cont = indexes[e.value.id]
+            if isinstance(cont, list):
+                # a module-level table filled by the index builder: positional access, IndexError is not a KeyError
+                if isinstance(k, int) and -len(cont) <= k < len(cont):
+                    return cont[k]
+                raise _IdxErr()
+            if k in cont:
+                return cont[k]
             raise _KeyErr()
+        if isinstance(e, ast.BinOp) and isinstance(e.op, ast.Sub):
+            l, r = ev(e.left), ev(e.right)
+            if isinstance(l, int) and isinstance(r, int):
+                return l - r
+            raise _NoInterp(norm(e)[:50])
+        if isinstance(e, ast.Compare) and len(e.ops) > 1:
+            vals = [ev(e.left)] + [ev(c) for c in e.comparators]
+            for a_, op_, b_ in zip(vals, e.ops, vals[1:]):
+                if not ev(ast.Compare(left=ast.Constant(value=a_), ops=[op_], comparators=[ast.Constant(value=b_)])):
+                    return False
+            return True
         if isinstance(e, ast.Call):
             d = dotted(e.func)
             if d == 'str' and len(e.args) == 1:
@@ -475,8 +533,27 @@ def _lookup_eval(fn, args, indexes, mi):
                 return v.kind if isinstance(v, Rec) and 'kind' in v else type(v).__name__
             if d == 'isinstance' and len(e.args) == 2:
                 v = ev(e.args[0])
-                k = norm(e.args[1])
-                return isinstance(v, Rec) and (v.get('kind') == k or (k == 'Element' and v.get('kind') == 'Isotope'))
+                ks = [norm(x) for x in e.args[1].elts] if isinstance(e.args[1], ast.Tuple) else [norm(e.args[1])]
+                builtin = {'int': int, 'str': str, 'float': float, 'bool': bool, 'tuple': tuple, 'list': list}
+                for k in ks:
+                    if k in builtin:
+                        if not isinstance(v, Rec) and isinstance(v, builtin[k]) and not (k == 'int' and isinstance(v, bool)):
+                            return True
+                    elif k in ('Element', 'Isotope'):
+                        if isinstance(v, Rec) and (v.get('kind') == k or (k == 'Element' and v.get('kind') == 'Isotope')):
+                            return True
+                    else:
+                        raise _NoInterp('isinstance(.., %s)' % k)
+                return False
+            if d == 'len' and len(e.args) == 1 and isinstance(e.args[0], ast.Name) and e.args[0].id in indexes:
+                return len(indexes[e.args[0].id])
+            if d == 'int' and len(e.args) == 1:
+                v = ev(e.args[0])
+                if isinstance(v, (int, str)) and not isinstance(v, Rec):
+                    try:
+                        return int(v)
+                    except ValueError:
+                        raise _IdxErr()
             if d in ('lookup_element', 'lookup_isotope') and d in mi.functions:
                 r = _lookup_eval(mi.functions[d], tuple(ev(a) for a in e.args), indexes, mi)
                 if r is None:
@@ -500,6 +577,9 @@ def _lookup_eval(fn, args, indexes, mi):
                 return l in r
             if op is ast.NotIn:
                 return l not in r
+            if op in (ast.Lt, ast.LtE, ast.Gt, ast.GtE) and all(isinstance(x, (int, float)) and not isinstance(x, Rec) for x in (l, r)):
+                return {ast.Lt: l < r, ast.LtE: l <= r, ast.Gt: l > r, ast.GtE: l >= r}[op]
+            raise _NoInterp(norm(e)[:50])
         if isinstance(e, ast.UnaryOp) and isinstance(e.op, ast.Not):
             return not ev(e.operand)
         if isinstance(e, ast.BoolOp):
@@ -558,7 +638,7 @@ def _lookup_eval(fn, args, indexes, mi):
         block(fn.body)
     except _Ret as r:
         return r.v if isinstance(r.v, Rec) else None
-    except _KeyErr:
+    except (_KeyErr, _IdxErr):
         return None
     return None
 
@@ -590,6 +670,11 @@ def _cmp_fields(e, boolop, cmpop):
 
 
 MUTANTS = [
+    dict(name='indices-share-one-dict', file=PYX, find="_element_index = {}\n_isotope_index = {}\n", replace="_element_index = _isotope_index = {}\n", expect='C19-R3'),
+    dict(name='integer-fast-path-through-a-contiguous-table', edits=[
+        dict(file=PYX, find="_element_index = {}\n_isotope_index = {}\n", replace="_element_index = {}\n_isotope_index = {}\n_element_table = []\n"),
+        dict(file=PYX, find="            _element_index[str(obj.atomic_number)] = obj\n", replace="            _element_index[str(obj.atomic_number)] = obj\n            _element_table.append(obj)\n    _element_table.sort(key=lambda element: element.atomic_number)\n"),
+        dict(file=PYX, find="    if type(v) is Element:\n        return v\n", replace="    if type(v) is Element:\n        return v\n    if isinstance(v, int) and 0 < v <= len(_element_table):\n        return _element_table[v - 1]\n")], expect='C19-R3'),
     dict(name='wrong-Z', file=PYX, find="carbon = Element('carbon', 'C', 6,", replace="carbon = Element('carbon', 'C', 7,", expect='C19-R2'),
     dict(name='duplicate-element-symbol', file=PYX, find="Element('cobalt', 'Co', 27", replace="Element('cobalt', 'C', 27", expect='C19-R1'),
     dict(name='isotope-wrong-element', file=PYX, find="Isotope('carbon13', 'C13', carbon, 13,", replace="Isotope('carbon13', 'C13', boron, 13,", expect='C19-R2'),
